@@ -26,11 +26,12 @@ Lookup(pairs, x) == LET S == {i \in DOMAIN pairs : pairs[i].k = x} IN
    the entry point's second create_jdd must not change the table) *)
 History(t) ==
     {c \in {"second_create_changes_table", "entry_point_differs", "entry_point_raised", "second_create_raised",
-            "table_of_an_earlier_loader_changed"} :
+            "table_of_an_earlier_loader_changed", "table_changed_by_drawing_a_sequence"} :
        CASE c = "second_create_changes_table" -> t.have_second /\ Tab(t.second) # Tab(t.first)
          [] c = "entry_point_differs" -> t.have_entry /\ Tab(t.entry) # Tab(t.first)
          [] c = "entry_point_raised" -> t.entry_raised # ""
          [] c = "second_create_raised" -> t.second_raised # ""
+         [] c = "table_changed_by_drawing_a_sequence" -> t.have_after_sampling /\ Tab(t.after_sampling) # Tab(t.first)
          [] c = "table_of_an_earlier_loader_changed" -> t.earlier_changed}      \* loaders are independent objects
 
 Basic(t) == IF ~AllOk(t.first) THEN {"value_not_a_multiple_of_dictated_denominator"}
@@ -67,7 +68,8 @@ MarginalSample1(t) ==
     LET T == Len(t.bounds)
         Prod(key) == ProdSeq([i \in 1..T |-> Lookup(t.F[i], key[i])])
         Cnt(key) == SumSeq([i \in DOMAIN t.tally |-> IF t.tally[i].key = key THEN t.tally[i].count ELSE 0])
-    IN IF ~t.decided THEN {} ELSE
+    IN IF t.not_single THEN {"table_of_one_sample_is_not_a_single_tuple"} ELSE
+       IF ~t.decided THEN {} ELSE
        IF \E i \in DOMAIN t.tally : t.tally[i].key \notin Box(t.bounds) THEN {"sample_outside_closed_ranges"} ELSE
        IF \E key \in Box(t.bounds) : Cnt(key) # Prod(key) THEN {"one_sample_law_not_product_of_marginals"} ELSE {}
 (* marginal, sampling mode, n samples: the table is the relative frequency of the drawn tuples *)
